@@ -100,6 +100,79 @@ pub proof fn lemma_file_of_take(identity: Seq<u8>, version: Option<u16>, l: Log,
     assert((f + concat(rows_of(l.skip(k)))).subrange(0, f.len() as int) =~= f);
 }
 
+/// decoding the record part of a row body (time, two hashes) and the value length behind it
+pub proof fn lemma_dec_elr(v: EventRecordV, tail2: Seq<u8>)
+    requires valid_EventRecord(v),
+    ensures ({
+        let rest = le32(v.event.len() as u32) + (v.event + tail2);
+        &&& dec_EventLogRecord(enc_UtcDateTime(v.time) + (v.last_commit + (v.commit + rest)))
+                == Some((ElrV { time: v.time, last_commit: v.last_commit, commit: v.commit }, rest))
+        &&& r_u32(rest) == Some((v.event.len() as u32, v.event + tail2))
+    }),
+{
+    let rest = le32(v.event.len() as u32) + (v.event + tail2);
+    let t2 = v.commit + rest;
+    let t1 = v.last_commit + t2;
+    lemma_roundtrip_UtcDateTime(v.time, t1);
+    lemma_take_n_concat(v.last_commit, t2);
+    lemma_take_n_concat(v.commit, rest);
+    lemma_le32(v.event.len() as u32);
+    lemma_take_n_concat(le32(v.event.len() as u32), v.event + tail2);
+}
+/// the bytes of a row (followed by anything) behind its leading length word, and where the event bytes sit
+pub proof fn lemma_row_layout(v: EventRecordV, tail: Seq<u8>)
+    requires valid_EventRecord(v),
+    ensures ({
+        let row = enc_EventRecord(v);
+        let n = enc_EventRecord_body(v).len() as u32;
+        &&& (row + tail).subrange(4, (row + tail).len() as int)
+                == enc_UtcDateTime(v.time) + (v.last_commit + (v.commit + (le32(v.event.len() as u32) + (v.event + (le32(n) + tail)))))
+        &&& row.subrange(ROW_VALUE_OFFSET, ROW_VALUE_OFFSET + v.event.len()) == v.event
+        &&& row.len() == 88 + v.event.len()
+    }),
+{
+    let row = enc_EventRecord(v);
+    let n = enc_EventRecord_body(v).len() as u32;
+    lemma_enc_EventRecord_len(v);
+    lemma_le32(n);
+    assert((row + tail).subrange(4, (row + tail).len() as int)
+        =~= enc_UtcDateTime(v.time) + (v.last_commit + (v.commit + (le32(v.event.len() as u32) + (v.event + (le32(n) + tail))))));
+    assert(row.subrange(ROW_VALUE_OFFSET, ROW_VALUE_OFFSET + v.event.len()) =~= v.event);
+}
+
+/// a stream that holds the row of `v` at [p, q): what `read_row` makes of it
+pub proof fn lemma_event_row_at(b: Seq<u8>, p: int, q: int, v: EventRecordV)
+    requires 0 <= p <= q <= b.len(), b.subrange(p, q) == enc_EventRecord(v), valid_EventRecord(v),
+    ensures
+        parse_row::<EventLogRecord>(b, p, q, true)
+            == Some(ItemV {
+                d: ElrV { time: v.time, last_commit: v.last_commit, commit: v.commit },
+                off: (p, q),
+                val: (p + ROW_VALUE_OFFSET, p + ROW_VALUE_OFFSET + v.event.len()),
+            }),
+        q - p == 88 + v.event.len(),
+        b.subrange(p + ROW_VALUE_OFFSET, p + ROW_VALUE_OFFSET + v.event.len()) == v.event,
+{
+    let row = enc_EventRecord(v);
+    let n = enc_EventRecord_body(v).len() as u32;
+    let tail = b.subrange(q, b.len() as int);
+    lemma_row_layout(v, tail);
+    lemma_dec_elr(v, le32(n) + tail);
+    assert(q - p == row.len());
+    let s = b.subrange(p + 4, b.len() as int);
+    let whole = b.subrange(p, b.len() as int);
+    assert(whole =~= row + tail);
+    assert(s =~= whole.subrange(4, whole.len() as int));
+    let rest = le32(v.event.len() as u32) + (v.event + (le32(n) + tail));
+    let rest2 = v.event + (le32(n) + tail);
+    assert(s == enc_UtcDateTime(v.time) + (v.last_commit + (v.commit + rest)));
+    assert(EventLogRecord::dec_of(s) == Some((ElrV { time: v.time, last_commit: v.last_commit, commit: v.commit }, rest)));
+    assert(r_u32(rest) == Some((v.event.len() as u32, rest2)));
+    assert(rest2.len() == v.event.len() + 4 + (b.len() - q));
+    assert(b.len() - rest2.len() == p + ROW_VALUE_OFFSET);
+    assert(b.subrange(p + ROW_VALUE_OFFSET, p + ROW_VALUE_OFFSET + v.event.len()) =~= b.subrange(p, q).subrange(ROW_VALUE_OFFSET, ROW_VALUE_OFFSET + v.event.len()));
+}
+
 /// What the iterator yields for row k of an event-log file: the record's time
 /// and hashes, the byte range of the row, and as value range exactly the
 /// bytes of the event.
@@ -118,38 +191,7 @@ pub proof fn lemma_event_row(b: Seq<u8>, h: int, l: Log, k: int)
         b.subrange(h + off(rows_of(l), k) + ROW_VALUE_OFFSET, h + off(rows_of(l), k) + ROW_VALUE_OFFSET + l[k].event.len()) == l[k].event,
 {
     let rows = rows_of(l);
-    let v = l[k];
     lemma_file_row(b, h, rows, k);
-    lemma_enc_EventRecord_len(v);
-    let p = h + off(rows, k);
-    let q = h + off(rows, k + 1);
-    let row = rows[k];
-    assert(row == enc_EventRecord(v));
-    let n = enc_EventRecord_body(v).len() as u32;
-    // the stream from p + 4 on:  time ++ last ++ commit ++ le32(len) ++ event ++ le32(n) ++ tail
-    let tail = b.subrange(q, b.len() as int);
-    let s = b.subrange(p + 4, b.len() as int);
-    let t3 = le32(v.event.len() as u32) + (v.event + (le32(n) + tail));
-    let t2 = v.commit + t3;
-    let t1 = v.last_commit + t2;
-    assert(b.subrange(p, b.len() as int) =~= b.subrange(p, q) + tail);
-    assert(s =~= enc_UtcDateTime(v.time) + t1) by {
-        assert(b.subrange(p, b.len() as int).subrange(4, b.len() - p) =~= s);
-        assert((row + tail).subrange(4, (row + tail).len() as int) =~= enc_UtcDateTime(v.time) + t1);
-    }
-    lemma_roundtrip_UtcDateTime(v.time, t1);
-    lemma_take_n_concat(v.last_commit, t2);
-    lemma_take_n_concat(v.commit, t3);
-    lemma_le32(v.event.len() as u32);
-    lemma_take_n_concat(le32(v.event.len() as u32), v.event + (le32(n) + tail));
-    assert(dec_EventLogRecord(s) == Some((ElrV { time: v.time, last_commit: v.last_commit, commit: v.commit }, t3)));
-    let rest2 = v.event + (le32(n) + tail);
-    assert(r_u32(t3) == Some((v.event.len() as u32, rest2)));
-    assert(rest2.len() == v.event.len() + 4 + (b.len() - q));
-    assert(b.len() - rest2.len() == p + ROW_VALUE_OFFSET);
-    assert(b.subrange(p + ROW_VALUE_OFFSET, p + ROW_VALUE_OFFSET + v.event.len()) =~= v.event) by {
-        assert(b.subrange(p, q) == row);
-        assert(row.subrange(ROW_VALUE_OFFSET, ROW_VALUE_OFFSET + v.event.len()) =~= v.event);
-        assert(b.subrange(p, q).subrange(ROW_VALUE_OFFSET, ROW_VALUE_OFFSET + v.event.len()) =~= b.subrange(p + ROW_VALUE_OFFSET, p + ROW_VALUE_OFFSET + v.event.len()));
-    }
+    assert(rows[k] == enc_EventRecord(l[k]));
+    lemma_event_row_at(b, h + off(rows, k), h + off(rows, k + 1), l[k]);
 }
